@@ -4,3 +4,4 @@ pub mod prog;
 pub mod sierra_args;
 pub mod rare;
 pub mod constexpr;
+pub mod sierramut;
